@@ -179,8 +179,7 @@ func verifSpecCL(lowered string) primitive.ConsistencyLevel {
 //@   ensures result.config.Resolver == config.Resolver
 //@   modifies nothing
 
-//@ func proxy.maybeAddPort
-//@   trusted
+//@ func proxy.maybeAddPort [C20, C17]
 //@   modifies nothing
 
 //@ func proxy.Run [C20]
@@ -572,8 +571,7 @@ func verifSpecCL(lowered string) primitive.ConsistencyLevel {
 //@   ensures request-frame: $reqStarted == old($reqStarted) + 1 ==> (valof($lastReq.frm) == ref(raw) && typeis($lastReq.frm, *frame.RawFrame)) || (fresh($lastReq.frm) && (typeis($lastReq.frm, *frame.RawFrame) ==> len(as($lastReq.frm, *frame.RawFrame).Body) == 0 || fresh(as($lastReq.frm, *frame.RawFrame).Body))) [C03]
 //@   modifies *, c.$sent, c.$executed, $reqStarted, $sends, $convertedBody, $lastReq, $lastMsg, $lastStream, $lastVersion, $lastClient, $exId, $exLocal, $useTried, $useOK, $useKs, $useVersion, $useCompression, any(proxycore.ClientConn).inflight, any(proxycore.pendingRequests).$has, any(proxycore.pendingRequests).$tag, any(proxycore.pendingRequests).$val
 
-//@ func proxy.preparedIdKey
-//@   trusted
+//@ func proxy.preparedIdKey [C17]
 //@   modifies nothing
 
 //@ func proxy.Proxy.isSelect
